@@ -84,6 +84,40 @@ class Consult:
         return out
 
 
+def _squeeze_holder(fn: FunctionInfo, call: ast.Call):
+    """(local name, self attribute) that receives the squeezed value."""
+    for st in walk_body(fn):
+        if isinstance(st, ast.Assign) and any(y is call for y in ast.walk(st.value)):
+            t = st.targets[0]
+            if isinstance(t, ast.Name):
+                return t.id, None
+            if isinstance(t, ast.Attribute) and isinstance(t.value, ast.Name) and t.value.id == "self":
+                return None, t.attr
+        if isinstance(st, ast.Expr) and st.value is call and call.func.attr.endswith("_"):
+            v = call.func.value
+            if isinstance(v, ast.Name):
+                return v.id, None
+            if isinstance(v, ast.Attribute) and isinstance(v.value, ast.Name) and v.value.id == "self":
+                return None, v.attr
+    return None, None
+
+
+def _enclosing_tests(fn_node: ast.AST, target: ast.AST) -> List[ast.expr]:
+    path: List[ast.AST] = []
+
+    def find(n, acc):
+        if n is target:
+            path.extend(acc)
+            return True
+        for ch in ast.iter_child_nodes(n):
+            if find(ch, acc + [n]):
+                return True
+        return False
+
+    find(fn_node, [])
+    return [p.test for p in path if isinstance(p, (ast.If, ast.IfExp, ast.While))]
+
+
 def run(idx: ProgramIndex, rep: Report, tier: str, selftest: bool = True):
     rep.extra["explanation"] = (
         "Two structural necessary conditions of 'the operator acts as the dense matrix its arguments denote'. (I) The "
@@ -210,6 +244,65 @@ def run(idx: ProgramIndex, rep: Report, tier: str, selftest: bool = True):
     rep.analysed["classes_with_mode_flags"] = n_flag_classes
     if n_flag_classes < 3:
         rep.error(f"only {n_flag_classes} classes with mode flags found (expected Cat, Chol, Triangular, ...)")
+
+    # ---------------------------------------------------------------- D
+    # the product / densification kernels compute in the OPERAND's dtype: a buffer allocated with torch's default dtype
+    # silently rounds a float64 product to float32 accuracy (C14.F re-used, restricted to the kernels)
+    from .c14 import factory_rule_for
+
+    rep.rule("C01.D", "buffers of the product / densification kernels carry the operand's dtype", floor=40)
+    kern_methods = ("_matmul", "_t_matmul", "matmul", "rmatmul", "to_dense", "_diagonal", "_get_indices", "_getitem", "_mul_matrix")
+
+    def in_kernel(fn_name: str, loc: str) -> bool:
+        return "/utils/" in loc or fn_name.split(".")[-1] in kern_methods or fn_name.startswith("utils.")
+
+    factory_rule_for(idx, rep, PROP, "C01.D", in_kernel)
+
+    # ---------------------------------------------------------------- Q
+    # argument-less squeeze() removes EVERY size-1 dimension: on a tensor whose extent is data dependent (kept rows of a
+    # mask, one right-hand side, a batch of one) the operator changes shape exactly in the size-1 case
+    rep.rule("C01.Q", "argument-less squeeze() only where the code has established that one element is left", floor=2)
+    n_q = 0
+    for fn in idx.functions:
+        for x in walk_body(fn):
+            if not (isinstance(x, ast.Call) and isinstance(x.func, ast.Attribute) and x.func.attr in ("squeeze", "squeeze_")
+                    and not x.args and not x.keywords):
+                continue
+            n_q += 1
+            tests = _enclosing_tests(fn.node, x)
+            ok = [norm(t) for t in tests if any(k in norm(t) for k in ("numel()", "len(", ".dim()", ".ndim", "ndimension()"))]
+            sample = {"function": fn.qualname.replace("linear_operator.", "")[:70], "call": short(x, 50),
+                      "under": ok[0][:60] if ok else None}
+            if not ok:
+                # where does the squeezed value go?  Only a use as a SUBSCRIPT index drops the dimension of the indexed
+                # tensor (x[..., idx, :] with a 0-d idx); index_select / index_copy_ accept a 0-d index and keep it
+                holder_name, holder_attr = _squeeze_holder(fn, x)
+                scope = []
+                if holder_attr is not None and fn.cls is not None:
+                    scope = [m.node for m in fn.cls.methods.values()]
+                elif holder_name is not None:
+                    scope = [fn.node]
+                used_as_subscript = False
+                for sc in scope:
+                    for y in ast.walk(sc):
+                        if isinstance(y, ast.Subscript):
+                            for z in ast.walk(y.slice):
+                                if (holder_name and isinstance(z, ast.Name) and z.id == holder_name) or (
+                                        holder_attr and isinstance(z, ast.Attribute) and z.attr == holder_attr):
+                                    used_as_subscript = True
+                if scope and not used_as_subscript:
+                    ok = ["not used as a subscript index"]
+                    sample["under"] = "value never used as a subscript index (index_select-style consumers keep the dimension)"
+            if ok:
+                rep.ok("C01.Q", sample)
+            else:
+                rep.bad("C01.Q", Finding(PROP, "C01.Q", fn.qualname.replace("linear_operator.", "", 1), norm(x),
+                                         f"`{short(x, 60)}` drops every dimension of size 1; nothing on the path establishes how many "
+                                         "elements are left, so when the data-dependent extent happens to be 1 (one kept row, one "
+                                         "column, a batch of one) the result loses a dimension and the operator no longer has the shape "
+                                         "of the matrix it denotes", fn.loc(x)), sample)
+    if n_q < 2:
+        rep.error(f"only {n_q} argument-less squeeze() calls found (expected >= 2)")
 
     if selftest:
         from ..selftest import run_fixtures
